@@ -420,7 +420,10 @@ def run_request(rep, prog):
                     if errp is not None and it.feasible(s2, z3.Not(is_ok)):
                         e = errp.fields[0]
                         if not (isinstance(e, Agg) and e.fields[3] is not None and e.fields[3].name.endswith('InvalidArgument')):
-                            rep.violation('C11:request:error-code', f'request_body_encoding rejects with {e.fields[3]!r} instead of INVALID_ARGUMENT', {'error': repr(e)[:300]})
+                            def bat():
+                                ops = [{'op': 'request_encoding', 'order': ['json', 'smile'], 'content_type_hex': b'text/plain'.hex()}, {'op': 'request_encoding', 'order': ['json', 'smile']}]
+                                return [f'{o}: {r}' for o, r in zip(ops, replay(ops)) if r.get('chosen') is not None or 'InvalidArgument' not in str(r.get('code'))]
+                            rep.structural('C11:request:error-code', f'request_body_encoding rejects with {e.fields[3]!r} instead of INVALID_ARGUMENT', {'error': repr(e)[:300]}, bat)
             finish_engine(rep, it)
 
 
